@@ -18,7 +18,7 @@ if not ok:
 dst = os.path.join(VERIF, "seeded", name)
 os.makedirs(dst, exist_ok=True)
 for f in ("patch.diff", "demo.py", "NOTES.md"):
-    if os.path.exists(os.path.join(src, f)):
+    if os.path.exists(os.path.join(src, f)) and os.path.abspath(os.path.join(src, f)) != os.path.abspath(os.path.join(dst, f)):
         shutil.copy(os.path.join(src, f), os.path.join(dst, f))
 notes = open(os.path.join(src, "NOTES.md")).read() if os.path.exists(os.path.join(src, "NOTES.md")) else ""
 meta = {
@@ -33,5 +33,11 @@ meta = {
     "checks": {p: {"exit": c["exit"], "reported": c["lines"][:2]} for p, c in res["checks"].items()},
     "caught_by": [p for p, c in res["checks"].items() if c["exit"] == 1],
 }
+old = os.path.join(dst, "meta.json")
+if os.path.exists(old):
+    prev = json.load(open(old))
+    for k in ("note", "needs_to_manifest"):
+        if prev.get(k) and (k == "note" or not meta.get(k)):
+            meta[k] = prev[k]
 json.dump(meta, open(os.path.join(dst, "meta.json"), "w"), indent=1, ensure_ascii=False)
 print("kept as", dst, "caught_by", meta["caught_by"])
